@@ -1,6 +1,7 @@
 import A2lVerif.Driver.ItemList
 import A2lVerif.Driver.Limits
 import A2lVerif.Driver.Encoding
+import A2lVerif.Driver.Sort
 /-! `a2lmodel`: one request per line on stdin, one canonical answer per line on stdout. -/
 open A2l
 
@@ -8,6 +9,7 @@ def dispatch (line : String) : String :=
   match (line.trimAscii.toString.splitOn " ").filter (· ≠ "") with
   | "il" :: args => IL.handle args
   | "lim" :: args => Lim.handle args
+  | "srt" :: args => Srt.handle args
   | "dec" :: args => Enc.handle "dec" args
   | "load" :: args => Enc.handle "load" args
   | _ => "bad-request"
